@@ -164,6 +164,18 @@ theorem idxOf?_lt {x : Name} {l : List Name} {i : Nat} (h : idxOf? x l = some i)
   · injection h with h; subst h; assumption
   · cases h
 
+theorem idxOf?_prefix {x : Name} {l1 l2 : List Name} {i : Nat} (hp : l1 <+: l2) (h : idxOf? x l1 = some i) :
+    idxOf? x l2 = some i := by
+  obtain ⟨t, rfl⟩ := hp
+  simp only [idxOf?] at h ⊢
+  split at h
+  · rename_i hlt
+    injection h with h
+    have hmem : x ∈ l1 := List.idxOf_lt_length_iff.mp hlt
+    have : (l1 ++ t).idxOf x = l1.idxOf x := by rw [List.idxOf_append]; simp [hmem]
+    rw [this, if_pos (by simp; omega), h]
+  · cases h
+
 theorem case_mk {S : Sem ν} {P : Prog ν} {T : Table ν} {G : List (List Name)} (hP : ProgOK P T G) {n : Nat}
     (ih : ExprOK S P T G n) (info : StructInfo) (fields : List (Field ν)) :
     ExprOKAt S P T G (n + 1) (.mk info fields) := by
@@ -205,8 +217,8 @@ theorem case_mk {S : Sem ν} {P : Prog ν} {T : Table ν} {G : List (List Name)}
         exact (List.append_cancel_left hcode).symm
       subst hfrag
       have ihl := list_ok ih es ρ cs cs1 f1 m f fs h1 e1 hl1 hfitL hctx hpos.left hconst hlay hlast
-      have hnames : cs1.structNames = T.structs.map StructInfo.name := by rw [g1.structNames, hctx.structs]
-      rw [hnames] at hidx
+      have hnames : cs1.structNames <+: T.structs.map StructInfo.name := by rw [g1.structNames]; exact hctx.structs
+      replace hidx := idxOf?_prefix hnames hidx
       have hilt : idx < T.structs.length := by simpa using idxOf?_lt hidx
       have hi65 : idx < 65536 := by have := hP.structsLt; rw [hP.structs] at this; omega
       refine ⟨?_, ?_⟩
